@@ -9,20 +9,23 @@ DEC = "fastavro/io/binary_decoder.py"
 W = "fastavro/_write_py.py"
 R = "fastavro/_read_py.py"
 VP = "fastavro/_validation_py.py"
+# container reader side: sync check, codec block readers, the record / block iterators
+CREAD = r"(is_avro|skip_sync|(null|deflate|bzip2|xz)_read_block|_iter_avro_records|_iter_avro_blocks|Block\.__iter__)"
 
-WRITERS = r"write_(null|boolean|int|long|float|double|bytes|utf8|fixed|enum|array|map|record|data)"
+WRITERS = r"write_(null|boolean|int|long|float|double|bytes|utf8|fixed|enum|array|map|union|record|data)"
+WLEMMAS = ["wf_branch_at", "rec_branch_shape", "valid_rec_is_dict", "dd_branch_at"]
 READERS = r"(read|skip)_(null|boolean|int|long|float|double|bytes|utf8|fixed|enum|array|map|union|record|data)"
 
 PROPS = {
     "C01": dict(
         functions=[(ENC, r"BinaryEncoder\..*", "default"), (DEC, r"BinaryDecoder\..*", "default"),
-                   (W, WRITERS, "default"), (R, READERS, "default")],
-        lemmas=["wf_branch_at"],
+                   (W, WRITERS, "default"), (R, READERS, "default"), (VP, r"_validate.*", "default")],
+        lemmas=WLEMMAS,
         bounded="C01", level="other",
     ),
     "C02": dict(
-        functions=[(ENC, r"BinaryEncoder\..*", "default"), (W, WRITERS, "default")],
-        lemmas=[],
+        functions=[(ENC, r"BinaryEncoder\..*", "default"), (W, WRITERS, "default"), (VP, r"_validate.*", "default")],
+        lemmas=WLEMMAS,
         bounded="C02", level="other",
     ),
     "C03": dict(
@@ -34,18 +37,23 @@ PROPS = {
     "C18": dict(functions=[], lemmas=[], provenance=True, bounded="C18", level="other"),
     # C04 / C07: codec block writers and the Writer's operations (what each appends to the user's stream,
     # what stays in the pending buffer; a failed write changes nothing).  Reader side and header: bounded.
-    "C04": dict(functions=[(W, r"(null|deflate|bzip2|xz)_write_block", "default"), (W, r"Writer\.(dump|write|flush)", "default")],
+    "C04": dict(functions=[(W, r"(null|deflate|bzip2|xz)_write_block", "default"), (W, r"Writer\.(dump|write|flush)", "default"),
+                           (R, CREAD, "default"), (DEC, r"BinaryDecoder\.read_long", "blockstart"), (R, r"read_long", "bare")],
                 lemmas=[], bounded="C04", level="other"),
-    "C05": dict(functions=[], lemmas=[], bounded="C05", level="exploration"),
+    # C05: reader side against the layout specification (FILE_BLOCKS: any number of blocks, any counts incl. 0,
+    # any partition inside the records); writer side: what each Writer operation appends (as C04)
+    "C05": dict(functions=[(R, CREAD, "default"), (DEC, r"BinaryDecoder\.read_long", "blockstart"), (R, r"read_long", "bare"),
+                           (W, r"(null|deflate|bzip2|xz)_write_block", "default"), (W, r"Writer\.(dump|flush)", "default")],
+                lemmas=[], bounded="C05", level="other"),
     # C06: the per-function short-read obligations of the decoder (a read that came back short makes
     # the method raise) and the exact-consumption contracts; the container iterators are bounded
-    "C06": dict(functions=[(DEC, r"BinaryDecoder\..*", ".*")], lemmas=[], bounded="C06", level="other"),
+    "C06": dict(functions=[(DEC, r"BinaryDecoder\..*", ".*"), (R, r"skip_sync", "default")], lemmas=[], bounded="C06", level="other"),
     "C07": dict(functions=[(W, r"(null|deflate|bzip2|xz)_write_block", "default"), (W, r"Writer\.(dump|write|flush|write_block)", ".*")],
                 lemmas=[], bounded="C07", level="other"),
     "C08": dict(functions=[], lemmas=[], bounded="C08", level="exploration"),
     # C09: "a function of schema and datum alone": frame obligations of the functions involved in
     # branch selection (no module-level or default-argument state); the selection rule itself is bounded
-    "C09": dict(functions=[], lemmas=[], provenance=True,
+    "C09": dict(functions=[(W, r"write_union", ".*"), (VP, r"_validate.*", "default")], lemmas=WLEMMAS, provenance=True,
                 provenance_filter=r"fastavro/(_write_py|_validation_py|_schema_py|_read_py)\.py:.*",
                 bounded="C09", level="other"),
     # C10: every validator returns exactly VALID (the statement's predicate) in the non-raising mode; the
